@@ -42,7 +42,18 @@ ForProg(v, a, b, c) ==
         Ln(30, <<[op |-> "NEXT", vs |-> <<>>, col |-> TRUE]>>),
         Ln(40, <<Prt(C(99)), EndS>>)>>,
       [kind |-> "for", expect |-> ForSeq(a, b, c) \o <<99>>])
+\* the limit of a FOR is evaluated once: assigning to the variable it was read from inside the loop does not change the number
+\* of passes (the round-1 seeded change of C19 kept a live view on that variable).  n: the limit; m: assigned to A in pass 2
+ForVarProg(v, n, m) ==
+    P(<<Ln(10, <<Let("A", C(n)), Let("J", C(0))>>),
+        Ln(20, <<[op |-> "FOR", v |-> v, a |-> C(1), b |-> V("A"), c |-> C(1), col |-> TRUE]>>),
+        Ln(30, <<Let("J", B("+", V("J"), C(1))),
+                 [op |-> "IF", e |-> B("=", V(v), C(2)), tn |-> 0, en |-> 0, ei |-> 0, col |-> TRUE], Let("A", C(m))>>),
+        Ln(40, <<[op |-> "NEXT", vs |-> <<>>, col |-> TRUE]>>),
+        Ln(50, <<Prt(V("J")), Prt(V(v)), Prt(V("A")), EndS>>)>>,
+      [kind |-> "forvar", expect |-> <<n, n + 1, IF n >= 2 THEN m ELSE n>>])
 ForFamily == {ForProg(v, a, b, c) : v \in {"I", "K%"}, a \in Rng, b \in Rng, c \in Steps3}
+             \cup {ForVarProg(v, n, m) : v \in {"I", "K%"}, n \in 1..4, m \in {0, 6}}
 
 \* nested loops closed by one NEXT J,I (both non-empty so the comma form is inside the fragment)
 RECURSIVE Flat(_)
